@@ -480,7 +480,8 @@ D_EXC = dict(exc=True)
 
 def _process_child_attrs(cls, retval, kwargs):
     child_attrs = copy(kwargs.get('child_attrs', None))
-    child_attrs_all = kwargs.get('child_attrs_all', None)
+    # the dictionaries the caller passes are never written to
+    child_attrs_all = copy(kwargs.get('child_attrs_all', None))
     child_attrs_noexc = copy(kwargs.get('child_attrs_noexc', None))
 
     # add exc=False to child_attrs_noexc
@@ -488,7 +489,7 @@ def _process_child_attrs(cls, retval, kwargs):
         # if there is _noexc, make sure that child_attrs_all is also used to
         # exclude exclude everything else first
         if child_attrs_all is None:
-            child_attrs_all = D_EXC
+            child_attrs_all = dict(D_EXC)
 
         else:
             if 'exc' in child_attrs_all and child_attrs_all['exc'] != D_EXC:
@@ -503,7 +504,7 @@ def _process_child_attrs(cls, retval, kwargs):
                 logger.warning("Overriding 'exc' for %s.%s from "
                          "child_attrs_noexc with False", cls.get_type_name(), k)
 
-            v['exc'] = False
+            child_attrs_noexc[k] = dict(v, exc=False)
 
         # update child_attrs with data from child_attrs_noexc
         if child_attrs is None:
